@@ -10,7 +10,7 @@
   __CPROVER_ensures(__CPROVER_return_value == 1 || __CPROVER_return_value / 2 < (i)) \
   __CPROVER_assigns()
 
-#ifndef VERIF_NO_LOOP_CONTRACTS
+#if defined(VERIF_USE_LOOP_CONTRACTS) && !defined(VERIF_NO_LOOP_CONTRACTS)   /* only the cell that closes the loop by its contract */
 #define LOOP_round_pow2_0 \
   __CPROVER_assigns(j) \
   __CPROVER_loop_invariant(VERIF_ISPOW2(j) && (j == 1 || j / 2 < i)) \
